@@ -61,6 +61,10 @@ type Meta struct {
 	Technique   string
 	// DeathIsViolation: a worker process dying while running a case is itself a violation (C09).
 	DeathIsViolation bool
+	// MinRepro: how many of the 5 confirmation re-executions must show the same fingerprint (default 5).
+	// A check whose PROPERTY is determinism itself (C01) sets 1: a divergence between identically fed replicas
+	// that shows up only sometimes is exactly the violation, not harness noise.
+	MinRepro int
 	// WorkerGOMAXPROCS: GOMAXPROCS of each worker process (default 1: 16 single-threaded workers beat 16x16 GC threads).
 	WorkerGOMAXPROCS int
 }
@@ -537,9 +541,16 @@ func CheckMain(id, tier string) int {
 					}
 				}
 			}
-			if rep != 5 {
+			need := 5
+			if meta.MinRepro > 0 {
+				need = meta.MinRepro
+			}
+			if rep < need {
 				agg.HarnessErrs = append(agg.HarnessErrs, fmt.Sprintf("violation %q of case %d reproduced %d/5 times: harness nondeterminism", fp, idx, rep))
 				continue
+			}
+			if rep < 5 {
+				v.Detail += fmt.Sprintf("\n (re-executed 5 times, diverged again in %d of them: the divergence itself is nondeterministic)", rep)
 			}
 		}
 		if k := kf.Match(id, v); k != nil {
